@@ -187,6 +187,24 @@ Theorem C04_admissible_verdict_ethernet : forall t m i,
 Proof. exact admissible_verdict_ethernet. Qed.
 Print Assumptions C04_admissible_verdict_ethernet.
 
+(* the verdict predicate the driver applies (extracted, the same definition): with or without the second
+   may-reject class (cookies dated in the future) an admissible verdict never accepts what the layout-free
+   specification rejects; outside both classes it equals it; and the future-dated class is empty while the clock
+   does not run backwards (so in generated cases the flag is never set: driver-side generality only) *)
+Theorem C04_admissible_verdict2_sound : forall may t m i, admissible_verdict2 may t m i = true -> i = true -> m = true.
+Proof. exact admissible_verdict2_sound. Qed.
+Print Assumptions C04_admissible_verdict2_sound.
+
+Theorem C04_admissible_verdict2_exact : forall t m i,
+  ethernet_tuple t = true -> admissible_verdict2 false t m i = true -> i = m.
+Proof. exact admissible_verdict2_exact. Qed.
+Print Assumptions C04_admissible_verdict2_exact.
+
+Theorem C04_future_dated_empty : forall iss now c,
+  Forall (fun i => let '(_, _, ts) := i in (Z.of_N ts * ns_per_s <= now)%Z) iss -> future_dated iss now c = false.
+Proof. exact future_dated_empty. Qed.
+Print Assumptions C04_future_dated_empty.
+
 (* ---------------------------------------------------------------- tags *)
 Theorem C04_parse_tags_terminates : forall p, parse_tags p <> OutOfFuel /\ parse_tags p <> Base.Panic.
 Proof. exact parse_tags_terminates. Qed.
